@@ -51,10 +51,11 @@ CycleOK(r) ==
           /\ (IF r.fmt = "sm" THEN SerSM(r2.obj) ELSE SerSSC(r2.obj)) = out
 InvCycle == \A e \in Entries : CycleOK(Res(FALSE, e)) /\ CycleOK(Res(TRUE, e))
 
-(* file names of the "named" entry points: a.sm a.ssc A.SM a.txt a.sm.bak b.SsC a.ssc.old *)
+(* file names of the "named" entry points: a.sm a.ssc A.SM a.txt a.sm.bak b.SsC a.ssc.old .ssc .Sm v1.2.ssc *)
 NameSeq == << <<97, 46, 115, 109>>, <<97, 46, 115, 115, 99>>, <<65, 46, 83, 77>>,
               <<97, 46, 116, 120, 116>>, <<97, 46, 115, 109, 46, 98, 97, 107>>,
-              <<98, 46, 83, 115, 67>>, <<97, 46, 115, 115, 99, 46, 111, 108, 100>> >>
+              <<98, 46, 83, 115, 67>>, <<97, 46, 115, 115, 99, 46, 111, 108, 100>>,
+              <<46, 115, 115, 99>>, <<46, 83, 109>>, <<118, 49, 46, 50, 46, 115, 115, 99>> >>
 ResN(strict, n) == Load(Text, strict, "named", NameSeq[n])
 
 (* a file name decides the format only through its last dot-suffix *)
